@@ -182,18 +182,36 @@ theorem times_in_seconds (rate : Rat) (samples : List Int) (hr : rate ≠ 0) :
       (timesOf rate samples).getD i 0 * rate = (samples.getD i 0 : Int) :=
   Lemmas.times_in_seconds rate samples hr
 
-/-- … and these are the arrays the conversion leaves in `spikes.times[.label].npy` (seconds) and
-`spikes.samples[.label].npy` (samples). -/
+/-- THE TWO LAYOUTS of the source's spike times (`_load_spike_samples`, model.py:644-662).  From `spike_times.npy`
+(in samples) the view's times are `samples / rate`; from `spikes.times*.npy` (in seconds) the view's times are the
+file's values VERBATIM — never recomputed from the samples — and the samples are the stored ones or, when there is
+no `spikes.samples*.npy`, `round(times * rate)` to the nearest integer with ties to even. -/
+theorem load_layouts (rate : Rat) :
+    (∀ s, loadSpikeSamples rate (.inSamples s) = (s, timesOf rate s)) ∧
+    (∀ t s, (loadSpikeSamples rate (.inSeconds t s)).2 = t) ∧
+    (∀ t s, (loadSpikeSamples rate (.inSeconds t (some s))).1 = s) ∧
+    (∀ t, (loadSpikeSamples rate (.inSeconds t none)).1 = t.map fun x => roundHalfEven (x * rate)) :=
+  Lemmas.load_layouts rate
+
+/-- `np.round`: within half a unit of its argument, and even at an exact tie -/
+theorem roundHalfEven_spec (q : Rat) :
+    ((roundHalfEven q : Int) : Rat) - q ≤ 1 / 2 ∧ q - ((roundHalfEven q : Int) : Rat) ≤ 1 / 2 ∧
+    (q - (q.floor : Rat) = 1 / 2 → roundHalfEven q % 2 = 0) :=
+  Lemmas.roundHalfEven_spec q
+
+/-- … and the view's times (seconds) and samples are the arrays the conversion leaves in
+`spikes.times[.label].npy` and `spikes.samples[.label].npy`: the export writes `model.spike_times` itself, it does
+not recompute the times from the samples (for a source given in seconds with sub-sample precision the two differ). -/
 theorem export_times_samples (cfg : Cfg) (v : View) (gen : Nat → String) (fs : FS) (h : Convertible cfg fs) :
     (convertFS cfg v gen fs).fs.out.lookup (labelled' cfg.label ["spikes", "times", "npy"]) =
-      some (fresh ((timesOf v.rate v.samples).map Row.q)) ∧
+      some (fresh (v.times.map Row.q)) ∧
     (convertFS cfg v gen fs).fs.out.lookup (labelled' cfg.label ["spikes", "samples", "npy"]) =
       some (fresh (v.samples.map Row.z)) :=
   Lemmas.export_times_samples cfg v gen fs h
 
 /-! Non-vacuity: a curated 3-spike source with a temporary file and raw data, label `p0`. -/
 def exView : View :=
-  { rate := 30000, samples := [0, 15000, 45000], spikeClusters := [0, 2, 2], spikeTemplates := [0, 1, 1],
+  { rate := 30000, samples := [0, 15000, 45000], times := [0, 1/2, 3/2], spikeClusters := [0, 2, 2], spikeTemplates := [0, 1, 1],
     amplitudes := [1, 2, 3], nTemplates := 2, channelMap := [0, 1], channelProbes := [0, 0], features := false }
 def exSrc : FDir :=
   [ (["params", "py"], ⟨"h0", [], false⟩), (["spike_clusters", "npy"], ⟨"h1", [.z 0, .z 2, .z 2], true⟩),
@@ -235,6 +253,8 @@ example : ((convertFS exCfg exView exGen ⟨exSrc, []⟩).fs.out.filter (fun f =
 example : ((convertFS exCfg exView exGen ⟨exSrc, []⟩).fs.out.lookup ["spikes", "clusters", "p0", "npy"]).map (·.tag) =
     some "u16:squeeze:h1" := by decide +kernel
 example : timesOf 30000 [0, 15000, 45000] = [0, 1/2, 3/2] := by decide +kernel
+example : loadSpikeSamples 4 (.inSeconds [1/16, 3/8, 5/8, 7/8] none) = ([0, 2, 2, 4], [1/16, 3/8, 5/8, 7/8]) := by
+  decide +kernel
 example : uuidOKb 2 ["uuids", "a", "b"] = true ∧ uuidOKb 2 ["uuids", "a", "a"] = false := by decide
 
 end PhyVerif.C13
